@@ -145,6 +145,23 @@ let run_docrt (id : string) (fields : t list) : string =
        | r -> Printf.sprintf "%s unm=ok out=%s" id (res_tag r))
   | r -> Printf.sprintf "%s unm=%s" id (res_tag r)
 
+(* family decor: a document and its decorated version, same instances (C18) *)
+let run_decor (id : string) (fields : t list) : string =
+  let rx = rx_of_sexp (L (A "rx" :: list (field "rx" fields))) in
+  let insts = List.map gv_of_sexp (list (field "insts" fields)) in
+  let one name =
+    match M.unmarshal (jdoc_of_sexp (field1 name fields)) with
+    | M.Ok s ->
+        (match M.resolve (re_ok rx) fuel_big s [] None with
+         | M.Ok (env, _) ->
+             ("ok", "ok", String.concat "" (List.map (fun i ->
+               match M.validate0 (re_match rx) (hashfun 0) fuel_big env i with
+               | M.Ok _ -> "V" | M.Err -> "I" | M.Panic -> "P" | M.OutOfFuel -> "F") insts))
+         | r -> ("ok", res_tag r, ""))
+    | r -> (res_tag r, "", "") in
+  let (u1, r1, v1) = one "doc" and (u2, r2, v2) = one "doc2" in
+  Printf.sprintf "%s unm=%s res=%s v=%s unm2=%s res2=%s v2=%s" id u1 r1 v1 u2 r2 v2
+
 let () =
   let family = Sys.argv.(1) in
   let ic = open_in Sys.argv.(2) in
@@ -163,6 +180,7 @@ let () =
                  | "uri" -> run_uri id fields
                  | "roundtrip" -> run_roundtrip id fields
                  | "docrt" -> run_docrt id fields
+                 | "decor" -> run_decor id fields
                  | f -> failwith ("unknown family " ^ f))
             | _ -> failwith "case expected"
           with Failure m -> "DRIVER-ERROR " ^ m
